@@ -39,7 +39,8 @@ PROP = {
                    "the statement-level gauge (running-exceeds-limit). A dispatch that can never return is decided logically "
                    "by a monitor thread: every caller asleep inside the same dispatch call, no job running, no pool worker "
                    "thread in the process; it is then unblocked by one extra dispatch so the run continues. Under Miri the "
-                   "same state is Miri's own deadlock report. A natively stalled completion wait is inconclusive."),
+                   "same state is Miri's own deadlock report. A natively stalled completion wait is inconclusive."
+                   " rt-pool legs also dispatch jobs straight to AsyncifyPool::dispatch that panic inside the pool worker (nothing catches them first): afterwards a dispatch that is refused while the thread census (/proc/self/task) shows no pool thread is a leaked slot; and they run blocking work through a Dispatcher whose pool is created by default from thread_pool_limit, via dispatch_blocking and via spawn_blocking inside its workers at once, against one gauge (the configured limit bounds both together)."),
     "technique": "runtime monitoring: job-boundary event oracle (run counters, gauge, identity tags), thread census, Miri, ThreadSanitizer",
     "rule": ("scenario = (thread_limit, sharers, idle timeout class, dispatchable flavour, phase list); oracle: every accepted "
              "job ran exactly once and was not dropped unrun; every refused job came back as the same object (id, nonce, heap "
@@ -47,7 +48,8 @@ PROP = {
              "never ran; max jobs running at once <= thread_limit; distinct live worker threads <= thread_limit (no-retire "
              "scenarios); dispatch returns; after idle periods beyond the timeout later jobs still run. Non-trivial = the pool "
              "refused at least one job (saturated); distinct = (limit, sharers, timeout class, flavour, phase/idle pattern, "
-             "saturation exact/yes/no, retirement seen, panic seen)"),
+             "saturation exact/yes/no, retirement seen, panic seen)"
+                   "; rt-pool legs: distinct = (driver, limit, runtimes/workers, saturated?, retirement, task panic?, worker panic?, dispatcher?)"),
     "assumptions": [
         "thread_limit >= 1 (0 is documented to panic when the pool is needed)",
         "job bodies terminate; gated jobs are released by the harness",
